@@ -172,18 +172,23 @@ Definition regkey_at (cx : ctx) (rid : option string) : option N :=
 Definition revocable (cx : ctx) (id : identifier) : bool :=
   match assoc (id_creddef id) (cx_creddefs cx) with Some cd => match cd_revkey cd with Some _ => true | None => false end | None => false end.
 
-(* per sub-proof: the interval demands the property attributes to it *)
-Definition sub_locals (c : vcase) (i : Z) : list (option interval) :=
+(* per sub-proof: the interval demands the property attributes to it. The W3C form has no referent
+   map: with a single credential every referent is served by it; with several, [over = false]
+   attributes only the request-wide interval (what is certainly demanded: used where acceptance
+   must imply something) and [over = true] attributes every referent's interval to every
+   credential (what is possibly demanded: used where meeting all demands must imply acceptance) *)
+Definition sub_locals_gen (over : bool) (c : vcase) (i : Z) : list (option interval) :=
   match c with
   | CLegacy R P _ => demands_legacy R P i
   | CW3C R P _ =>
-      (* no referent map: with a single credential every referent is served by it; otherwise only
-         the request-wide interval is attributed (conservative) *)
+      let all := map (fun x => ai_nr (snd x)) (rq_attrs R) ++ map (fun x => pi_nr (snd x)) (rq_preds R) in
       match wp_creds P with
-      | [_] => map (fun x => ai_nr (snd x)) (rq_attrs R) ++ map (fun x => pi_nr (snd x)) (rq_preds R)
-      | _ => []
+      | [_] => all
+      | _ => if over then all else []
       end
   end.
+Definition sub_locals := sub_locals_gen false.
+Definition sub_locals_over := sub_locals_gen true.
 Fixpoint indexed {A} (i : Z) (l : list A) : list (Z * A) :=
   match l with [] => [] | x :: r => (i, x) :: indexed (i + 1) r end.
 
@@ -219,10 +224,10 @@ Definition ok_C08 (c : vcase) (base : bool) (o : outcome) : bool :=
   (negb base || is_accept o ||
    negb (forallb (fun '(i, (id, sp)) =>
                     negb (revocable cx id) ||
-                    negb (some_interval_applies R (sub_locals c i)) ||
+                    negb (some_interval_applies R (sub_locals_over c i)) ||
                     match id_ts id, list_at cx (id_revreg id) (id_ts id), sp_nrp sp, regkey_at cx (id_revreg id) with
                     | Some t, Some acc, Some n, Some rk =>
-                        all_demands_met R cx (id_revreg id) (sub_locals c i) t
+                        all_demands_met R cx (id_revreg id) (sub_locals_over c i) t
                         && nrp_valid n && N.eqb (nrp_acc n) acc && N.eqb (nrp_regkey n) rk
                     | _, _, _, _ => false end) subs))
   &&
@@ -258,8 +263,8 @@ Definition restr_true_legacy (R : request) (P : presentation) (cx : ctx) : bool 
                              | Some sp => match filter_of cx sp with
                                           | Some f =>
                                               let m := match ai_name ai with
-                                                       | Some n => [(n, option_map (fun x => snd (fst x)) (assoc r (rp_revealed rp)))]
-                                                       | None => map (fun n => (n, match assoc r (rp_groups rp) with
+                                                       | Some n => [(cv n, option_map (fun x => snd (fst x)) (assoc r (rp_revealed rp)))]
+                                                       | None => map (fun n => (cv n, match assoc r (rp_groups rp) with
                                                                                   | Some g => option_map fst (assoc n (snd g)) | None => None end))
                                                                      (match ai_names ai with Some ns => ns | None => [] end)
                                                        end in
@@ -277,10 +282,10 @@ Definition restr_true_legacy (R : request) (P : presentation) (cx : ctx) : bool 
                              | Some sp => match filter_of cx sp with
                                           | Some f =>
                                               let rv := flat_map (fun '(ar, (j, raw, _)) => if j =? i then match assoc ar (rq_attrs R) with
-                                                                     | Some ai => match ai_name ai with Some n => [(n, Some raw)] | None => [] end
+                                                                     | Some ai => match ai_name ai with Some n => [(cv n, Some raw)] | None => [] end
                                                                      | None => [] end else []) (rp_revealed rp) in
-                                              let gv := flat_map (fun '(_, (j, vals)) => if j =? i then map (fun '(n, (raw, _)) => (n, Some raw)) vals else []) (rp_groups rp) in
-                                              sem (rev gv ++ rev rv ++ [(pi_name pi, None)]) f q
+                                              let gv := flat_map (fun '(_, (j, vals)) => if j =? i then map (fun '(n, (raw, _)) => (cv n, Some raw)) vals else []) (rp_groups rp) in
+                                              sem (rev gv ++ rev rv ++ [(cv (pi_name pi), None)]) f q
                                           | None => false end
                              | None => false end
                  | None => false end
@@ -306,6 +311,30 @@ Definition restr_true (c : vcase) : bool :=
 (* [base] = the implementation's verdict under the same request with every restriction removed *)
 Definition ok_C06 (c : vcase) (base : bool) (o : outcome) : bool :=
   (negb (is_accept o) || restr_true c) && (negb (base && restr_true c) || is_accept o).
+
+(* ---- well-formedness of a case (precondition of the theorems; checked on every case) ---- *)
+(* the attribute names inside CL sub-proofs are normalised (the
+   library builds every CL credential value under attr_common_view of its name) *)
+Definition sp_names_normalised (sp : subproof) : bool :=
+  forallb (fun kv => String.eqb (cv (fst kv)) (fst kv)) (sp_revealed sp).
+Fixpoint nodup_keys {V} (m : list (string * V)) : bool :=
+  match m with [] => true | (k, _) :: r => negb (mem k (keys r)) && nodup_keys r end.
+(* ... and the maps of the presentation that are hash maps in the code have distinct keys *)
+Definition case_wf (c : vcase) : bool :=
+  forallb (fun x => sp_names_normalised (snd x)) (case_subs c)
+  && match c with
+     | CLegacy _ P _ => forallb (fun g => nodup_keys (snd (snd g))) (rp_groups (p_rp P))
+     | CW3C _ _ _ => true
+     end.
+
+
+(* the maps that are hash maps in the code have distinct keys *)
+Definition req_wf (R : request) : bool := nodup_keys (rq_attrs R) && nodup_keys (rq_preds R).
+Definition rp_wf (rp : req_proof) : bool :=
+  nodup_keys (rp_revealed rp) && nodup_keys (rp_groups rp) && nodup_keys (rp_unrev rp) && nodup_keys (rp_preds rp).
+Definition case_wf1 (c : vcase) : bool :=
+  case_wf c && req_wf (case_request c) && match c with CLegacy _ P _ => rp_wf (p_rp P) | CW3C _ _ _ => true end.
+
 
 (* ---- C12 ---- *)
 Definition ok_C12 (o : outcome) : bool := negb (outcome_eqb o Panic).
